@@ -72,6 +72,8 @@ type Result struct {
 	Forks        int
 	Inconclusive []string // reasons (budget, unknown at assertion, engine error, unwinding)
 	Violations   []*Violation
+	// Unrealisable: candidates dropped because their model describes no Go program
+	Unrealisable int
 	Reached      map[string]int
 	Stats        SolverStats
 	Wall         time.Duration
@@ -349,6 +351,28 @@ func (p *Path) violation(kind, msg string, extra *Term, stack string) {
 	if v == Unknown {
 		ex.res.Inconclusive = append(ex.res.Inconclusive, fmt.Sprintf("%s candidate (%s) with unknown feasibility", kind, msg))
 		return
+	}
+	// the lazy world is looser than go/types: it records a constant value only for constant
+	// expressions. A candidate in which, say, a dereference or a composite literal "has" a
+	// constant value describes no program; it is dropped (and counted) rather than kept as one
+	// of the few candidates of its class.
+	for k, tv := range m {
+		if !strings.HasPrefix(k, "info.Types[") || !strings.HasSuffix(k, "].Value#type") || !strings.Contains(tv.Str, "go/constant.") {
+			continue
+		}
+		node := strings.TrimSuffix(strings.TrimPrefix(k, "info.Types["), "].Value#type")
+		if nt, ok := m[node+"#type"]; ok {
+			switch nt.Str {
+			case "*go/ast.BasicLit", "*go/ast.Ident", "*go/ast.ParenExpr", "*go/ast.BinaryExpr", "*go/ast.UnaryExpr", "*go/ast.SelectorExpr", "*go/ast.CallExpr":
+			default:
+				ex.res.Unrealisable++
+				return
+			}
+			if nt.Str == "*go/ast.UnaryExpr" && strings.Contains(tv.Str, "stringVal") {
+				ex.res.Unrealisable++ // no unary operator yields a string constant
+				return
+			}
+		}
 	}
 	viol := &Violation{Kind: kind, Msg: msg, Model: m, VarOrder: append([]string(nil), p.varOrder...),
 		Decisions: append([]int(nil), p.decisions...), Trace: p.renderEvents(), Stack: stack}
